@@ -340,6 +340,14 @@ func (s Server) Serve(c context.Context, conn network.Conn) (err error) {
 			statefulConn.DetectConnectionClose()
 		}
 
+		// The handler may drop or replace the request body (Body(), SetBody*, ResetBody,
+		// CloseBodyStream...): keep the stream the body is being read from, it has to be
+		// drained after the response whatever the request looks like by then.
+		var reqBodyStream io.Reader
+		if ctx.Request.IsBodyStream() {
+			reqBodyStream = ctx.RequestBodyStream()
+		}
+
 		// Handle the request
 		//
 		// NOTE: All middlewares and business handler will be executed in this. And at this point, the request has been parsed
@@ -416,8 +424,8 @@ func (s Server) Serve(c context.Context, conn network.Conn) (err error) {
 		}
 
 		// Release request body stream
-		if ctx.Request.IsBodyStream() {
-			err = ext.ReleaseBodyStream(ctx.RequestBodyStream())
+		if reqBodyStream != nil {
+			err = ext.ReleaseBodyStream(reqBodyStream)
 			if err != nil {
 				return
 			}
